@@ -60,17 +60,18 @@ type RPCHist struct {
 
 // History is the merged, indexed record of a run.
 type History struct {
-	W        *World
-	Evs      []simrt.Event
-	Res      *simrt.Result
-	RPCs     map[int]*RPCHist
-	RPCIDs   []int
-	Frames   []*FrameRec
-	NFrames  int
-	ConnEnds map[int][]simrt.Event
-	Tunnel   []simrt.Event
-	Faults   []simrt.Event
-	Derived  map[string]int64
+	W          *World
+	Evs        []simrt.Event
+	Res        *simrt.Result
+	RPCs       map[int]*RPCHist
+	RPCIDs     []int
+	Frames     []*FrameRec
+	NFrames    int
+	ConnEnds   map[int][]simrt.Event
+	Tunnel     []simrt.Event
+	Faults     []simrt.Event
+	Derived    map[string]int64
+	holWitness string
 }
 
 func (h *History) rpc(id int) *RPCHist {
@@ -140,6 +141,8 @@ func BuildHistory(w *World, evs []simrt.Event, res *simrt.Result) *History {
 			h.Tunnel = append(h.Tunnel, e)
 		case EvFault:
 			h.Faults = append(h.Faults, e)
+		case EvCounter:
+			h.Derived[e.S] = e.A
 		case EvViolation:
 			if v, ok := e.P.(*Violation); ok {
 				w.Viol = append(w.Viol, *v)
@@ -223,6 +226,8 @@ func (h *History) Render(max int) []string {
 			s = "note " + e.S
 		case EvTunnel:
 			s = fmt.Sprintf("tunnel%d %s %s", e.A, e.S, e.S2)
+		case EvCounter:
+			h.Derived[e.S] = e.A
 		case EvViolation:
 			s = fmt.Sprintf("VIOLATION %s %s", e.S, e.S2)
 		case EvCheckpoint:
